@@ -98,7 +98,7 @@ contract(
         if PathExists(self) else
         (self._tested is False and self._is_valid is True and len(self._failures) == 0 and self.filter is None),
     raises={},
-    min_timeout_ms=40000,       # one conjunct of the loop-invariant step needs a case split z3 finds only slowly
+    min_timeout_ms=60000,       # one conjunct of the loop-invariant step needs a case split z3 finds only slowly
     witnesses=_witnesses,
     serves=["C05"],
 )
